@@ -909,3 +909,69 @@ Proof.
     + unfold query_part. apply same_site_rel_intro; assumption.
     + change (utf8_coerce []) with (if false then 63 :: @nil N else []). apply same_site_rel_intro; auto.
 Qed.
+
+(* ---------------------------------------------------------------- non-vacuity *)
+(* targets that reach Proxy (hypotheses of C06_same_site / _absolute are satisfiable), are
+   redirected by path cleaning, or are refused.  Host "a" configured. *)
+Example route_examples :
+  (* /a/b?x=1 *)      route [[97]] [97] [47;97;47;98;63;120;61;49] = RProxy [97] [47;97;47;98;63;120;61;49] /\
+  (* /\evil *)        route [[97]] [97] [47;92;101;118;105;108] = RProxy [97] [47;37;53;67;101;118;105;108] /\
+  (* /%2f%2fevil *)   route [[97]] [97] [47;37;50;102;37;50;102;101] = RProxy [97] [47;37;50;102;37;50;102;101] /\
+  (* //evil *)        route [[97]] [97] [47;47;101;118;105;108] = RCleanRedirect [47;101;118;105;108] /\
+  (* /a/../b *)       route [[97]] [97] [47;97;47;46;46;47;98] = RCleanRedirect [47;98] /\
+  (* /?<80> *)        route [[97]] [97] [47;63;128] = RProxy [97] [47;63;239;191;189] /\
+  (* /%zz *)          route [[97]] [97] [47;37;122;122] = RBadRequest /\
+  (* h://a/x?y *)     route [[97]] [98] [104;58;47;47;97;47;120;63;121] = RProxy [97] [104;58;47;47;97;47;120;63;121] /\
+  (* h://b/x *)       route [[97]] [97] [104;58;47;47;98;47;120] = RMisdirected /\
+  (* h://u@a/x *)     route [[97]] [97] [104;58;47;47;117;64;97;47;120] = RUnmodelled.
+Proof. repeat split; vm_compute; reflexivity. Qed.
+
+(* ---------------------------------------------------------------- the 301 of path cleaning (origin-form) *)
+(* gorilla's redirect target is same-site too: "/" first, then neither "/" nor "\", no CTL *)
+Lemma clean_redirect_same_site hosts hh t loc :
+  has_prefix t [47] = true -> route hosts hh t = RCleanRedirect loc -> same_site_rel loc = true.
+Proof.
+  intros Hp Hr. unfold route in Hr. destruct (memb 32 t); [discriminate|].
+  destruct (parse_request_uri t) as [| |u] eqn:Epar; try discriminate.
+  destruct (parse_origin _ _ Hp Epar) as [Hctl [Hs [Hh [rest [Hpr [Hsp [Hir [Hiq _]]]]]]]].
+  destruct (str_eqb (u_path u) PING); [discriminate|]. rewrite Hh in Hr. cbn [nilb] in Hr.
+  destruct (mem_str hh hosts); cbn [negb] in Hr; [|discriminate].
+  destruct (str_eqb (clean_path (escaped_path u)) (escaped_path u)); cbn [negb] in Hr;
+    [destruct (mem_str (escaped_path u) fixed_routes); discriminate|].
+  inversion Hr; subst loc. clear Hr.
+  set (cp := clean_path (escaped_path u)).
+  (* the escaped path of the URL whose Path was overwritten with the cleaned path *)
+  assert (Hep : exists ep, escaped_path (with_path u cp) = 47 :: ep /\
+                           (ep = [] \/ exists c r, ep = c :: r /\ c <> 47 /\ c <> 92) /\
+                           existsb is_ctl (47 :: ep) = false).
+  { unfold escaped_path. cbn [with_path u_rawpath u_path].
+    destruct (negb (nilb (u_rawpath u)) && valid_encoded (u_rawpath u) &&
+              match unescape (u_rawpath u) with Some p => str_eqb p cp | None => false end) eqn:E.
+    - (* RawPath is kept: it decodes to the cleaned path *)
+      apply andb_true_iff in E as [E Eun]. apply andb_true_iff in E as [En Ev].
+      unfold set_path in Hsp. destruct (unescape rest) as [p|] eqn:Eu; [|discriminate]. injection Hsp as Hpath Hraw.
+      assert (Hr : u_rawpath u = rest).
+      { rewrite <- Hraw in En |- *. destruct (str_eqb rest _); [discriminate | reflexivity]. }
+      rewrite Hr in *. rewrite Eu in Eun. apply str_eqb_eq in Eun. subst p.
+      apply has_prefix_slash in Hpr as [r ->]. exists r. split; [reflexivity|].
+      apply valid_encoded_props in Ev as [Hbs [_ Hc]]. split; [|exact Hc].
+      destruct r as [|c r']; [left; reflexivity|]. right. exists c, r'. split; [reflexivity|]. split.
+      + intros ->. rewrite !unescape_cons in Eu. change (N.eqb 47 37) with false in Eu. cbv iota in Eu.
+        destruct (unescape r') as [t'|]; [|discriminate]. inversion Eu as [Hcp]. rewrite Eun in Hcp.
+        destruct (clean_path_head (escaped_path u)) as [H|[c [r0 [H Hc47]]]]; fold cp in H; rewrite H in Hcp.
+        * discriminate.
+        * inversion Hcp. congruence.
+      + intros ->. apply Hbs. right; left; reflexivity.
+    - destruct (clean_path_head (escaped_path u)) as [H|[c [r0 [H Hc47]]]]; fold cp in H; rewrite H.
+      + exists []. split; [reflexivity|]. split; [left; reflexivity | reflexivity].
+      + assert (str_eqb (47 :: c :: r0) [42] = false) as -> by reflexivity.
+        rewrite escape_cons_slash. destruct (escape_head_not_slash c r0 Hc47) as [d [r1 [Hd Hd47]]].
+        exists (escape (c :: r0)). split; [reflexivity|]. split.
+        * right. rewrite Hd. exists d, r1. split; [reflexivity|]. split; [exact Hd47|].
+          intros ->. apply (escape_no_backslash (c :: r0)). rewrite Hd. left; reflexivity.
+        * rewrite <- escape_cons_slash. apply escape_no_ctl. }
+  destruct Hep as [ep [Hep [Hhead Hc]]].
+  assert (Hus : url_string (with_path u cp) = (47 :: ep) ++ query_part (u_force_query u) (u_rawquery u)).
+  { apply (url_string_origin (with_path u cp) ep); [exact Hs | exact Hh | exact Hep]. }
+  rewrite Hus. unfold query_part. apply same_site_rel_intro; [exact Hhead | exact Hc | exact (no_ctl_incl _ _ Hiq Hctl)].
+Qed.
